@@ -82,7 +82,15 @@ class Ctx:
 
 
 def call(fn, *a, limit_s=60, **kw):
-    """Runs an implementation call with a time limit; returns ('ok', value) or ('error', text)."""
+    """Runs an implementation call with a time limit; returns ('ok', value) or ('error', text).
+    A timeout is retried once with a much longer limit before it is reported."""
+    st, v = _call(fn, *a, limit_s=limit_s, **kw)
+    if st == "error" and str(v).startswith("Timeout"):
+        st, v = _call(fn, *a, limit_s=limit_s * 8 + 120, **kw)
+    return st, v
+
+
+def _call(fn, *a, limit_s=60, **kw):
     drain_events()
     try:
         with time_limit(limit_s):
